@@ -1,0 +1,11 @@
+//go:build verif
+
+package utils
+
+// VerifSnapshot reports the accounted size and the number of stored entries
+// of a MemoryCache to the verification harness (build tag verif only).
+func (cache *MemoryCache[K, V]) VerifSnapshot() (float64, int) {
+	cache.mutex.RLock()
+	defer cache.mutex.RUnlock()
+	return cache.currentCacheSize, len(cache.cache)
+}
